@@ -433,7 +433,8 @@ pub fn scenarios(ctx: &Ctx) -> Vec<Scenario> {
     v.push(scenario("B/sha", |c| serde_inputs::<Sha>(c, 200)));
     v.push(scenario("B/shake", |c| serde_inputs::<Shake>(c, 201)));
     // (170, 2) / (1400, 2): more hidden values than any internal buffer, batch or one-call expansion limit holds
-    let big: &[(usize, usize)] = ctx.t(&[(170, 2)][..], &[(170, 2), (2, 170), (1400, 2)][..]);
+    // sizes at word-width boundaries of any position bitmap: exactly 63 / 64 / 65 / 128 positions (plain and blind)
+    let big: &[(usize, usize)] = ctx.t(&[(170, 2), (64, 0), (63, 0), (40, 23), (128, 0)][..], &[(170, 2), (64, 0), (63, 0), (65, 0), (40, 23), (128, 0), (127, 0), (2, 170), (1400, 2)][..]);
     for (k, (l, m)) in [(0usize, 0usize), (1, 0), (3, 2), (2, 5)].into_iter().chain(big.iter().copied()).enumerate() {
         let i = 300 + k as u64;
         v.push(scenario(format!("C/sha/L{l}M{m}"), move |c| entry_points::<Sha>(c, i, l, m)));
